@@ -231,6 +231,24 @@ pub fn filters(th: bool) -> Vec<Expr> {
             }
         }
     }
+    // pairs of different atoms whose texts differ only in where the segment boundaries are, joined by `||` / `&&`
+    // (an operand must never be mistaken for a repetition of its neighbour)
+    {
+        let t = |segs: Vec<Seg>| Expr::Test(q_rel(segs));
+        let c = |segs: Vec<Seg>| Expr::Cmp(Cmpable::Query(q_rel(segs)), Op::Eq, Cmpable::Lit(Lit::int(1)));
+        let pairs: Vec<(Expr, Expr)> = vec![
+            (t(vec![ch(sh("a")), ch(sh("b"))]), t(vec![ch(sh("ab"))])),
+            (c(vec![ch(sh("a")), ch(sh("b"))]), c(vec![ch(sh("ab"))])),
+            (c(vec![ch(sh("a")), ch(Sel::Index(1))]), c(vec![ch(sh("a1"))])),
+            (t(vec![ch(sh("a"))]), t(vec![ch(sh("a"))])),
+        ];
+        for (x, y) in pairs {
+            v.push(Expr::Or(vec![x.clone(), y.clone()]));
+            v.push(Expr::Or(vec![y.clone(), x.clone()]));
+            v.push(Expr::And(vec![x.clone(), y.clone()]));
+            v.push(Expr::Or(vec![x.clone(), y.clone(), x.clone()]));
+        }
+    }
     v.extend(formulas(if th { 2 } else { 2 }));
     v
 }
